@@ -120,18 +120,21 @@ type inliner struct {
 	notes []string
 	edits map[string][]inlineEdit
 	// per file: import name -> path that must be added
-	addImports   map[string]map[string]string
-	inlinedAll   map[*types.Func]int // calls inlined
-	unrolled     int
-	exprInlined  int
-	scalarised   int
-	inReturnExpr bool
-	closureFn    map[types.Object]*types.Func // local `name := func(...) {...}` -> synthetic function object
-	closureLit   map[*types.Func]*ast.FuncLit
-	closureUses  map[*types.Func]int
-	closureDef   map[*types.Func]ast.Stmt
-	substRecv    bool   // current call: the receiver is substituted, not bound
-	substParam   []bool // current call: per parameter
+	addImports    map[string]map[string]string
+	inlinedAll    map[*types.Func]int // calls inlined
+	unrolled      int
+	deferRewrites int
+	extraUses     map[*types.Func]int
+	curFn         *ast.FuncDecl
+	exprInlined   int
+	scalarised    int
+	inReturnExpr  bool
+	closureFn     map[types.Object]*types.Func // local `name := func(...) {...}` -> synthetic function object
+	closureLit    map[*types.Func]*ast.FuncLit
+	closureUses   map[*types.Func]int
+	closureDef    map[*types.Func]ast.Stmt
+	substRecv     bool   // current call: the receiver is substituted, not bound
+	substParam    []bool // current call: per parameter
 	// a package-level type whose name is taken by a local of the caller is addressed through a
 	// file-level alias in the expanded text
 	aliasDecls map[string]map[string]bool                // file -> "type X__inlT = X"
@@ -822,6 +825,56 @@ func (il *inliner) stmtEdit(stmt ast.Stmt, file *ast.File) (string, bool) {
 				return "{ " + t + "\nif " + rest + " }", true
 			}
 		}
+	case *ast.DeferStmt:
+		// `defer h(a, b)` of a fresh function: the arguments are evaluated now, the body runs at
+		// the exit: `t1, t2 := a, b; defer func() { <body of h with t1, t2> }()`
+		if fn, call := calleeOf(x.Call); fn != nil {
+			fd := il.fresh[fn]
+			if fd == nil || fd.Type.Results != nil && len(fd.Type.Results.List) > 0 {
+				return "", false
+			}
+			// pre-evaluate the arguments (and the receiver) into temporaries, then inline a call on them
+			inlineSeq++
+			id := inlineSeq
+			var pre strings.Builder
+			callText := ""
+			if se, ok := ast.Unparen(call.Fun).(*ast.SelectorExpr); ok {
+				if il.pkg.TypesInfo.Selections[se] != nil {
+					if il.stableLocal(se.X) {
+						callText = il.text(se.X) + "." + se.Sel.Name + "("
+					} else {
+						pre.WriteString(fmt.Sprintf("d__inl%d_r := %s; ", id, il.text(se.X)))
+						callText = fmt.Sprintf("d__inl%d_r.%s(", id, se.Sel.Name)
+					}
+				}
+			}
+			if callText == "" {
+				callText = il.text(call.Fun) + "("
+			}
+			for i, a := range call.Args {
+				if tv, ok := il.pkg.TypesInfo.Types[a]; (ok && tv.Value != nil) || il.stableLocal(a) {
+					// constants and locals that are assigned exactly once need no temporary
+					if i > 0 {
+						callText += ", "
+					}
+					callText += il.text(a)
+					continue
+				}
+				pre.WriteString(fmt.Sprintf("d__inl%d_%d := %s; ", id, i, il.text(a)))
+				if i > 0 {
+					callText += ", "
+				}
+				callText += fmt.Sprintf("d__inl%d_%d", id, i)
+			}
+			if call.Ellipsis.IsValid() {
+				callText += "..."
+			}
+			callText += ")"
+			il.inlinedAll[fn]++ // this use goes away; the call inside the literal is a new one, expanded next round
+			il.deferRewrites++
+			il.extraUses[fn]++
+			return pre.String() + "defer func() { " + callText + " }()", true
+		}
 	case *ast.ReturnStmt:
 		if len(x.Results) > 1 {
 			// `return f(a), b, c` with one fresh call and otherwise side-effect-free results
@@ -955,6 +1008,7 @@ func (il *inliner) run() {
 				continue
 			}
 			curFn = fd
+			il.curFn = fd
 			il.registerClosures(fd)
 			visitList(fd.Body.List)
 			il.dropInlinedClosures(fd, file)
@@ -999,7 +1053,7 @@ func buildInlinedOverlay(pkgs []*packages.Package, base map[string][]byte) *inli
 		if !isJivaPkg(p.Types) || strings.Contains(p.PkgPath, "/tests/") {
 			return
 		}
-		il := &inliner{pkg: p, fset: p.Fset, src: map[string][]byte{}, fresh: map[*types.Func]*ast.FuncDecl{}, edits: map[string][]inlineEdit{}, addImports: map[string]map[string]string{}, inlinedAll: map[*types.Func]int{}, aliasDecls: map[string]map[string]bool{}, renames: map[*ast.FuncDecl]map[types.Object]string{}, closureFn: map[types.Object]*types.Func{}, closureLit: map[*types.Func]*ast.FuncLit{}, closureUses: map[*types.Func]int{}, closureDef: map[*types.Func]ast.Stmt{}}
+		il := &inliner{pkg: p, fset: p.Fset, src: map[string][]byte{}, fresh: map[*types.Func]*ast.FuncDecl{}, edits: map[string][]inlineEdit{}, addImports: map[string]map[string]string{}, inlinedAll: map[*types.Func]int{}, aliasDecls: map[string]map[string]bool{}, renames: map[*ast.FuncDecl]map[types.Object]string{}, extraUses: map[*types.Func]int{}, closureFn: map[types.Object]*types.Func{}, closureLit: map[*types.Func]*ast.FuncLit{}, closureUses: map[*types.Func]int{}, closureDef: map[*types.Func]ast.Stmt{}}
 		any := false
 		for fn, fd := range fresh {
 			if fn.Pkg() == p.Types {
@@ -1019,6 +1073,10 @@ func buildInlinedOverlay(pkgs []*packages.Package, base map[string][]byte) *inli
 		il.run()
 		// drop declarations whose every use was inlined
 		for fn, n := range il.inlinedAll {
+			if il.extraUses[fn] > 0 {
+				res.Count += il.extraUses[fn]
+				continue // re-written into a deferred literal this round: still called from there
+			}
 			if n > 0 && n == uses[fn] {
 				// the declaration is kept under the blank name: its imports stay used, go/ssa
 				// does not build blank functions
@@ -1902,6 +1960,9 @@ func (il *inliner) planSubst(fd *ast.FuncDecl, call *ast.CallExpr) {
 var baselineStructNames map[string]bool
 
 func (il *inliner) freshStruct(t types.Type) (*types.Named, *ast.StructType) {
+	if p, isP := t.(*types.Pointer); isP {
+		t = p.Elem() // `v := &T{...}` that never leaves the function is as good as a value
+	}
 	n, ok := t.(*types.Named)
 	if !ok || n.Obj().Pkg() != il.pkg.Types {
 		return nil, nil
@@ -1998,11 +2059,20 @@ func (il *inliner) scalarise(fd *ast.FuncDecl) []inlineEdit {
 		return nil, nil
 	}
 	litOf := func(e ast.Expr, v *types.Var) *ast.CompositeLit {
-		cl, ok := ast.Unparen(e).(*ast.CompositeLit)
+		e = ast.Unparen(e)
+		want := v.Type()
+		if p, isP := want.(*types.Pointer); isP {
+			u, ok := e.(*ast.UnaryExpr)
+			if !ok || u.Op != token.AND {
+				return nil
+			}
+			e, want = ast.Unparen(u.X), p.Elem()
+		}
+		cl, ok := e.(*ast.CompositeLit)
 		if !ok {
 			return nil
 		}
-		if !types.Identical(info.TypeOf(cl), v.Type()) {
+		if !types.Identical(info.TypeOf(cl), want) {
 			return nil
 		}
 		return cl
@@ -2072,6 +2142,9 @@ func (il *inliner) scalarise(fd *ast.FuncDecl) []inlineEdit {
 			v, _ := info.Defs[vs.Names[0]].(*types.Var)
 			if v == nil || cands[v] == nil {
 				return true
+			}
+			if _, isPtr := v.Type().(*types.Pointer); isPtr && len(vs.Values) == 0 {
+				return true // a nil pointer is not an aggregate
 			}
 			if len(vs.Values) == 0 {
 				uses = append(uses, useT{node: x, kind: "decl", v: v})
@@ -2318,4 +2391,57 @@ func (il *inliner) dropInlinedClosures(fd *ast.FuncDecl, file string) {
 		}
 		delete(il.closureDef, syn)
 	}
+}
+
+// stableLocal: e is a local variable or parameter of the current function that is assigned
+// nowhere but at its definition and whose address is not taken: its value at any later point is
+// its value now.
+func (il *inliner) stableLocal(e ast.Expr) bool {
+	info := il.pkg.TypesInfo
+	id, ok := ast.Unparen(e).(*ast.Ident)
+	if !ok || il.curFn == nil {
+		return false
+	}
+	v, ok := info.Uses[id].(*types.Var)
+	if !ok || v.IsField() || v.Parent() == il.pkg.Types.Scope() {
+		return false
+	}
+	stable := true
+	ast.Inspect(il.curFn.Body, func(n ast.Node) bool {
+		switch x := n.(type) {
+		case *ast.AssignStmt:
+			if x.Tok != token.DEFINE {
+				for _, l := range x.Lhs {
+					if lid, ok := ast.Unparen(l).(*ast.Ident); ok && info.Uses[lid] == types.Object(v) {
+						stable = false
+					}
+				}
+			} else {
+				for _, l := range x.Lhs {
+					// re-declaration in a := with a new sibling re-assigns
+					if lid, ok := l.(*ast.Ident); ok && info.Uses[lid] == types.Object(v) {
+						stable = false
+					}
+				}
+			}
+		case *ast.IncDecStmt:
+			if lid, ok := ast.Unparen(x.X).(*ast.Ident); ok && info.Uses[lid] == types.Object(v) {
+				stable = false
+			}
+		case *ast.UnaryExpr:
+			if x.Op == token.AND {
+				if lid, ok := ast.Unparen(x.X).(*ast.Ident); ok && info.Uses[lid] == types.Object(v) {
+					stable = false
+				}
+			}
+		case *ast.RangeStmt:
+			for _, l := range []ast.Expr{x.Key, x.Value} {
+				if lid, ok := l.(*ast.Ident); ok && x.Tok == token.ASSIGN && info.Uses[lid] == types.Object(v) {
+					stable = false
+				}
+			}
+		}
+		return true
+	})
+	return stable
 }
